@@ -406,6 +406,9 @@ func TestCheck(t *testing.T) {
 		defer configure(16)()
 		tops := []string{"0", "10", "18446744073709551615", "18446744073709551616", "-1", "-0", "1.5", "1.0", "1e3", "1E3", "1e-1", "10e400", "0.000e9", "01", "1_000", " 10 ", "\t10\n",
 			`"10"`, `"1 kB"`, `"1 kB"`, `"1\u00a0000 KiB"`, `"1 000 KiB"`, `"1_0"`, `"1_"`, `"16 EiB"`, `"15 EiB"`, `"1 kb"`, `""`, `" "`, `"\n1"`, `"1\n"`, `"1"`, `"1 B  "`, `"0 YiB"`, `"1 ZB"`, `"-1"`, `"1e3"`, `"x"`, `"\ud800"`, "\"1\xff\"",
+			// escapes of other string syntaxes (Go, C, JavaScript) are not JSON
+			`"\x31\x30"`, `"\061"`, `"1\x20KiB"`, `"\U00000031 kB"`, `"\a1"`, `"1\v"`, `"\0"`, `'1'`, "`1`", `"\u{31}"`, `"1\
+"`,
 			"true", "false", "null", "[]", "[10]", `["1kB"]`, "{}", `{"value":1,"unit":"kB"}`, ` { "value" : 1 , "unit" : "kB" } `, `{"unit":"kB","value":1}`, "{\"value\":1,\"unit\":\"kB\"}\n", `{"value":1,"unit":"kB"} `,
 			`{"value":2,"unit":"MiB"}`, `{"value":2,"UNIT":"GiB","extra":{"value":[1,2,{"unit":null}]}}`, `{"unİt":"kB","value":1}`, `{"VALUE":1,"unit":"kB","value":2}`, "10 xyz", "10kB", `"1kB" x`, `{"value":1,"unit":"kB"`, `{"value":1,"unit":"kB"]`, `{"value":1,"unit":"kB"}}`, `{"value":1,"unit":"kB",}`, `{"value":1 "unit":"kB"}`, `{"value":1,"unit":"kB"}{"value":2,"unit":"kB"}`}
 		r.Parallel(int64(len(tops)), 1, func(w *vkit.W, lo, hi int64) {
